@@ -327,8 +327,11 @@ def run(ctx) -> dict:
     from .c13_unicode import r13_4
     results = [r12_1(ctx, counts), r12_2(ctx, counts), r13_3(ctx, counts), r12_4(ctx, counts),
                r13_4(ctx, counts), r12_5(ctx, counts)]
+    # process-wide state is written only by the reviewed inventory (no new caches)
+    from .c19_global import r19_5 as _r19_5
+    _state = _r19_5(ctx, counts, lambda f: f.module.name.startswith('elementpath.regex'), 2)
     return {
-        'results': results, 'counts': counts,
+        'results': results + [_state], 'counts': counts,
         'explanation':
             'Decided statically: (1) the four XPath regex functions agree on the set of '
             'exception classes from pattern translation/compilation that they convert to '
